@@ -2,6 +2,7 @@ import ShootVerif.Proofs.RestSend
 import ShootVerif.Proofs.RestParse
 import ShootVerif.Proofs.RestKV
 import ShootVerif.Proofs.RestText
+import ShootVerif.Proofs.RestAst
 import ShootVerif.Gen.Facts
 /-!
 C06 — rest: each call sends exactly the request its directive describes.
@@ -361,6 +362,37 @@ theorem C06_request_text (is : IfaceSpec) (calls : List Call) (hdoc : List Char)
       r.verb = m.verb.upper ∧ r.path = specPath m cl.args ∧ r.query.getD [] = specQuery m cl.args ∧
       r.body = specBody m ∧ (∀ k, getKV r.headers k = specHeader is.headers m.verb k) ∧ r.ctx = specCtx m cl.args :=
   call_text is calls hdoc spell hwf hh hsp cl hcl m hm
+
+/-! ## the walk over the entries of the interface type (go/ast level) -/
+
+/-- WHERE the embedded shoot.RestClient[T] (carrying the `headers=` comment) — or any other embedded interface — stands
+    among the methods is irrelevant, for EVERY entry list: the output is that of the same interface written the README
+    way, embedded entries first (the header tables are read by the template only after the whole walk) -/
+theorem C06_embed_position (es : List Entry) : generateAst (embedsFirst es) = generateAst es :=
+  generateAst_embedsFirst es
+
+/-- a parameter group `a, b T` is the parameters `a T, b T`, in order, wherever it stands in the list;
+    an unnamed parameter contributes nothing -/
+theorem C06_param_groups (pre post : List ParamGroup) (a b : List String) (k : PKind) (p : Bool) :
+    flattenParams (pre ++ ⟨a ++ b, k, p⟩ :: post) = flattenParams (pre ++ ⟨a, k, p⟩ :: ⟨b, k, p⟩ :: post) ∧
+    (flattenParams (pre ++ ⟨a ++ b, k, p⟩ :: post)).map (·.name) = (pre ++ ⟨a ++ b, k, p⟩ :: post).flatMap (·.names) ∧
+    flattenParams (pre ++ ⟨[], k, p⟩ :: post) = flattenParams (pre ++ post) :=
+  ⟨flattenParams_split pre post a b k p, flattenParams_names _, by simp [flattenParams, List.flatMap_append]⟩
+
+/-- the entry level meets the interface level: with one documented embedded entry — anywhere among the methods — the
+    output is `generate` (to which C06_generate_closed and C06_request_text apply) on its doc text and the flattened
+    methods, unless the result list of a cooked method is rejected (Fatal) -/
+theorem C06_ast_iface (pre post : List Entry) (hdoc : List Char)
+    (hpre : ∀ e ∈ pre, e.isMethod = true) (hpost : ∀ e ∈ post, e.isMethod = true) :
+    generateAst (pre ++ Entry.embed (some hdoc) :: post) =
+      (match generate ⟨hdoc, astMethods (pre ++ Entry.embed (some hdoc) :: post)⟩ with
+        | .fatal => .fatal
+        | .ok plans b => if badResults (pre ++ Entry.embed (some hdoc) :: post) then .fatal else .ok plans b) :=
+  generateAst_eq_generate _ hdoc (astHeaders_single pre post hdoc hpre hpost)
+
+example : generateAst [.method "A" (some "shoot: Get(/a)\n".toList) [⟨["ctx"], .ctx, false⟩, ⟨["x", "y"], .scalar, false⟩] [⟨0, .star⟩, ⟨0, .httpResp⟩, ⟨0, .error⟩],
+      .embed (some "shoot: headers={K:v}\n".toList), .method "B" none [] []]
+    = generate ⟨"shoot: headers={K:v}\n".toList, [⟨"A", "shoot: Get(/a)\n".toList, [⟨"ctx", .ctx, false⟩, ⟨"x", .scalar, false⟩, ⟨"y", .scalar, false⟩]⟩, ⟨"B", [], []⟩]⟩ := by decide
 
 /-! ## Finding regions: concrete witnesses on which the unchanged code violates the property -/
 
